@@ -93,15 +93,13 @@ func c15R6(c *kit.Ctx, a *c15Anchors, r5 *kit.Rule) {
 		return ok
 	}
 	var chLoop *ast.RangeStmt
-	ast.Inspect(f.Body, func(n ast.Node) bool {
-		if _, ok := n.(*ast.FuncLit); ok {
-			return false
-		}
-		if rs, ok := n.(*ast.RangeStmt); ok && c15Field(info, rs.X, "Children", isN) {
+	chCopies := map[types.Object]bool{}
+	for _, rs := range f.SliceLoops(f.Body) {
+		if c15Field(info, rs.X, "Children", isN) {
 			chLoop = rs
+			chCopies = kit.ElemAliases(info, rs)
 		}
-		return true
-	})
+	}
 
 	st := &kit.Std{F: f}
 	atom := func(e ast.Expr) (string, bool, bool) {
@@ -194,7 +192,7 @@ func c15R6(c *kit.Ctx, a *c15Anchors, r5 *kit.Rule) {
 					if u, ok := x.(*ast.UnaryExpr); ok && u.Op == token.AND {
 						x = ast.Unparen(u.X)
 					}
-					if chLoop.Value != nil && kit.ObjOf(info, x) != nil && kit.ObjOf(info, x) == kit.ObjOf(info, chLoop.Value) {
+					if o := kit.ObjOf(info, x); o != nil && chCopies[o] {
 						okArg = true
 					}
 					if ix, ok := x.(*ast.IndexExpr); ok && chLoop.Key != nil && kit.ObjOf(info, ix.Index) == kit.ObjOf(info, chLoop.Key) && c15Field(info, ix.X, "Children", isN) {
